@@ -22,6 +22,29 @@ type Finding struct {
 // AuditOpt carries what the harness knows about the call.
 type AuditOpt struct {
 	Env map[string]string // env var name -> value for env= options that are active
+	// Canon, when set (lib/conf), is the key canonicalisation the loader applies to struct keys
+	// and document keys alike: a field is fed from the document key whose canonical form equals
+	// the canonical form of its own key. Map-typed data keys are looked up through it as well
+	// (what the loader does to data keys is not asserted).
+	Canon func(string) string
+}
+
+// lookup finds the document value for a struct key. ambiguous=true when several document
+// keys collapse onto the field under Canon (which one wins is not asserted).
+func (o AuditOpt) lookup(m map[string]any, key string) (v any, present, ambiguous bool) {
+	if o.Canon == nil {
+		v, present = m[key]
+		return v, present, false
+	}
+	ck := o.Canon(key)
+	n := 0
+	for k, c := range m {
+		if o.Canon(k) == ck {
+			v, present = c, true
+			n++
+		}
+	}
+	return v, present, n > 1
 }
 
 func finding(sig, format string, a ...any) *Finding {
@@ -58,6 +81,10 @@ func typeClass(t *Type) string {
 }
 
 func anyKeyPresent(t *Type, m map[string]any) bool {
+	return anyKeyPresentO(t, m, AuditOpt{})
+}
+
+func anyKeyPresentO(t *Type, m map[string]any, o AuditOpt) bool {
 	if t.K == Ptr {
 		t = t.Elem
 	}
@@ -65,7 +92,7 @@ func anyKeyPresent(t *Type, m map[string]any) bool {
 		if f.Foreign {
 			continue
 		}
-		if _, ok := m[f.DocKey()]; ok {
+		if _, ok, _ := o.lookup(m, f.DocKey()); ok {
 			return true
 		}
 	}
@@ -92,7 +119,7 @@ func auditStruct(t *Type, rv reflect.Value, m map[string]any, path string, o Aud
 		}
 		p := path + "." + f.DocKey()
 		if f.Anonymous {
-			if f.O.Optional && !anyKeyPresent(f.T, m) {
+			if f.O.Optional && !anyKeyPresentO(f.T, m, o) {
 				if !fv.IsZero() {
 					return finding("optional-absent-not-zero:embedded", "%s: optional embedded struct with no key present is %s", p, Show(fv))
 				}
@@ -100,6 +127,9 @@ func auditStruct(t *Type, rv reflect.Value, m map[string]any, path string, o Aud
 			}
 			st, sv := derefOrZero(f.T, fv)
 			if fd := auditStruct(st, sv, m, path, o); fd != nil {
+				if f.O.Optional && !strings.HasSuffix(fd.Sig, ":in-optional-embedded") {
+					fd.Sig += ":in-optional-embedded"
+				}
 				return fd
 			}
 			continue
@@ -122,7 +152,10 @@ func auditStruct(t *Type, rv reflect.Value, m map[string]any, path string, o Aud
 				continue
 			}
 		}
-		dv, present := m[key]
+		dv, present, ambiguous := o.lookup(m, key)
+		if ambiguous {
+			continue
+		}
 		optional := f.O.Optional
 		if f.O.Dep != "" {
 			_, baseOn := m[f.O.Dep]
@@ -444,6 +477,17 @@ func auditValue(t *Type, rv reflect.Value, dv any, container string, p string, o
 			if !ok {
 				return finding("inexact:map<-"+DocClass(dv), "%s: document value %s is not an object, no error; field = %s", p, short(dv), Show(rv))
 			}
+		}
+		if o.Canon != nil {
+			cm := map[string]any{}
+			for k, c := range mm {
+				ck := o.Canon(k)
+				if _, dup := cm[ck]; dup {
+					return nil // data keys collapsing under the loader's canonicalisation: not asserted
+				}
+				cm[ck] = c
+			}
+			mm = cm
 		}
 		if rv.Len() != len(mm) {
 			return finding("inexact:map-keys", "%s: document object has %d keys, field has %d: %s", p, len(mm), rv.Len(), Show(rv))
